@@ -733,13 +733,20 @@ fn eval_static(c: &Check, v: &mut Verdict) {
 
 fn eval_allocfail(c: &Check, v: &mut Verdict) {
     use crate::isolate::{run_forked, ChildEnd};
-    let r = reference(c, 0, false);
-    note_ref(v, &r);
-    if r.status != Status::Halted || r.canon_steps > c.exec_cap {
-        v.nontrivial = false;
-        return;
-    }
-    let case = with_mode(&c.case, c.case.mode, Fault::None, r.events.len() + 64);
+    let far = c.case.far_move.is_some();
+    let case = if far {
+        // the program starts so far from its tape that its first write is a request nobody can
+        // serve: no reference run applies, the only acceptable ends are abort and panic
+        with_mode(&c.case, c.case.mode, Fault::None, 64)
+    } else {
+        let r = reference(c, 0, false);
+        note_ref(v, &r);
+        if r.status != Status::Halted || r.canon_steps > c.exec_cap {
+            v.nontrivial = false;
+            return;
+        }
+        with_mode(&c.case, c.case.mode, Fault::None, r.events.len() + 64)
+    };
     let end = run_forked(
         || {
             let o = exec::execute(&case);
@@ -748,7 +755,8 @@ fn eval_allocfail(c: &Check, v: &mut Verdict) {
                 ExecResult::Panic(_) | ExecResult::CreatePanic(_) => "panic",
                 _ => "error",
             };
-            format!("{} {} {}", res, o.events.len(), o.alloc.failed)
+            // (after a caught panic the context has been dropped: what the allocator saw then counts)
+            format!("{} {} {} {} {}", res, o.events.len(), o.alloc.failed, o.alloc.unknown_free, o.alloc.canary_hits + o.alloc.size_mismatch)
         },
         std::time::Duration::from_secs(10),
     );
@@ -758,8 +766,21 @@ fn eval_allocfail(c: &Check, v: &mut Verdict) {
         ChildEnd::Exited(p) => {
             let f: Vec<&str> = p.split_whitespace().collect();
             let failed: u64 = f.get(2).and_then(|x| x.parse().ok()).unwrap_or(0);
+            let unknown_free: u64 = f.get(3).and_then(|x| x.parse().ok()).unwrap_or(0);
+            let damaged: u64 = f.get(4).and_then(|x| x.parse().ok()).unwrap_or(0);
             match f.first().copied() {
+                Some("panic") if unknown_free > 0 => v.fail(
+                    "double-free-after-panic",
+                    0,
+                    "the growth request panicked; when the context was dropped afterwards a block was freed that the allocator no longer (or never) knew".into(),
+                ),
+                Some("panic") if damaged > 0 => v.fail("canary", 0, "the growth request panicked; bytes next to a heap block were overwritten or a block was freed with a wrong layout".into()),
                 Some("panic") => v.bump("ended_by_panic"),
+                Some("returned") if far => {
+                    // an optimised program need not touch the tape at all (`+.` prints a constant)
+                    v.bump("far_start_program_never_grew_the_tape");
+                    v.nontrivial = false;
+                }
                 Some("returned") if failed == 0 => {
                     v.bump("fault_not_reached");
                     v.nontrivial = false;
